@@ -305,9 +305,62 @@ func c16SystemClaims(w *World, r *Report, signer *types.Named) {
 		}
 	})
 	r.Ob(ri, "Sign|custom-claims-merged", fn.Pos(), len(merges) > 0, "the custom claims must be merged into the signed claims")
+	// the system claims may be written by a helper that is handed the claims map: analyse the helper
+	// with its parameters mapped to Sign's (the helper call takes the place of the writes in Sign)
+	host := fn // function holding the writes
+	subV, ttlV, recvV := ssa.Value(fn.Params[1]), ssa.Value(fn.Params[2]), ssa.Value(fn.Params[0])
+	var helperCall *ssa.Call
+	if len(updates) == 0 {
+		for _, ci := range callsIn(fn) {
+			c, ok := ci.(*ssa.Call)
+			if !ok || ssa.Instruction(c) == builderCall {
+				continue
+			}
+			callee := c.Common().StaticCallee()
+			if callee == nil || callee.Blocks == nil || fnPkgPath(callee) != fnPkgPath(fn) {
+				continue
+			}
+			ci2 := -1
+			for i, a := range c.Common().Args {
+				if stripConv(a) == claims {
+					ci2 = i
+				}
+			}
+			if ci2 < 0 || ci2 >= len(callee.Params) {
+				continue
+			}
+			helperCall, host = c, callee
+			subV, ttlV, recvV = nil, nil, nil
+			for i, a := range c.Common().Args {
+				if i >= len(callee.Params) {
+					break
+				}
+				switch stripConv(a) {
+				case ssa.Value(fn.Params[1]):
+					subV = callee.Params[i]
+				case ssa.Value(fn.Params[2]):
+					ttlV = callee.Params[i]
+				case ssa.Value(fn.Params[0]):
+					recvV = callee.Params[i]
+				}
+			}
+			hc := ssa.Value(callee.Params[ci2])
+			eachInstr(callee, func(in ssa.Instruction) {
+				mu, ok := in.(*ssa.MapUpdate)
+				if !ok || stripConv(mu.Map) != hc {
+					return
+				}
+				if s, ok := constString(mu.Key); ok {
+					updates[s] = mu
+				}
+			})
+			r.Analysed(w.FnName(callee))
+			break
+		}
+	}
 	// one issue time
 	var now ssa.Value
-	for _, c := range findCalls(fn, named("time.Now")) {
+	for _, c := range findCalls(host, named("time.Now")) {
 		now = c
 	}
 	fromNow := func(v ssa.Value) bool {
@@ -315,24 +368,24 @@ func c16SystemClaims(w *World, r *Report, signer *types.Named) {
 	}
 	want := map[string]func(v ssa.Value) (bool, string){
 		"sub": func(v ssa.Value) (bool, string) {
-			return stripConv(v) == ssa.Value(fn.Params[1]), "sub must be the subject parameter"
+			return subV != nil && stripConv(v) == subV, "sub must be the subject parameter"
 		},
 		"iss": func(v ssa.Value) (bool, string) {
 			root, p := accessPath(stripConv(v))
-			return len(p) == 1 && root == ssa.Value(fn.Params[0]), "iss must be the signer's configured name"
+			return recvV != nil && len(p) == 1 && root == recvV, "iss must be the signer's configured name"
 		},
 		"iat": func(v ssa.Value) (bool, string) {
-			return fromNow(v) && !dependsOn(w, v, func(x ssa.Value) bool { return x == ssa.Value(fn.Params[2]) }), "iat must be the issue time"
+			return fromNow(v) && !dependsOn(w, v, func(x ssa.Value) bool { return ttlV != nil && x == ttlV }), "iat must be the issue time"
 		},
 		"nbf": func(v ssa.Value) (bool, string) {
-			return fromNow(v) && !dependsOn(w, v, func(x ssa.Value) bool { return x == ssa.Value(fn.Params[2]) }), "nbf must be the issue time"
+			return fromNow(v) && !dependsOn(w, v, func(x ssa.Value) bool { return ttlV != nil && x == ttlV }), "nbf must be the issue time"
 		},
 		"exp": func(v ssa.Value) (bool, string) {
-			ok := fromNow(v) && dependsOn(w, v, func(x ssa.Value) bool { return x == ssa.Value(fn.Params[2]) })
+			ok := ttlV != nil && fromNow(v) && dependsOn(w, v, func(x ssa.Value) bool { return x == ttlV })
 			// exactly now + ttl: an Add call on the issue time with the ttl parameter
 			add := false
 			dependsOn(w, v, func(x ssa.Value) bool {
-				if c, isC := x.(*ssa.Call); isC && callName(c.Common()) == "time.Time.Add" && len(c.Common().Args) == 2 && c.Common().Args[1] == ssa.Value(fn.Params[2]) && dependsOn(w, c.Common().Args[0], func(y ssa.Value) bool { return y == now }) {
+				if c, isC := x.(*ssa.Call); isC && callName(c.Common()) == "time.Time.Add" && len(c.Common().Args) == 2 && c.Common().Args[1] == ttlV && dependsOn(w, c.Common().Args[0], func(y ssa.Value) bool { return y == now }) {
 					add = true
 				}
 				return false
@@ -352,16 +405,27 @@ func c16SystemClaims(w *World, r *Report, signer *types.Named) {
 			continue
 		}
 		ok, msg := want[n](mu.Value)
+		// position of the write within Sign: the write itself, or the call of the helper holding it
+		var at ssa.Instruction = mu
+		if helperCall != nil {
+			at = helperCall
+			// inside the helper the write is unconditional
+			for _, ret := range returnsOf(host) {
+				if !dominatesInstr(mu, ret) {
+					ok, msg = false, "system claim "+n+" is not written on every path through "+host.Name()
+				}
+			}
+		}
 		after := true
 		for _, m := range merges {
-			if !dominatesInstr(m, mu) || reachableAfter(mu, m) {
+			if !dominatesInstr(m, at) || reachableAfter(at, m) {
 				after = false
 			}
 		}
 		if !after {
 			ok, msg = false, "custom claims can overwrite the system claim "+n+" (merge does not strictly precede it)"
 		}
-		if !dominatesInstr(mu, builderCall) {
+		if !dominatesInstr(at, builderCall) {
 			ok, msg = false, "system claim "+n+" is not written on every path to the signing step (a custom claim can take its place)"
 		}
 		r.Ob(ri, "Sign|claim|"+n, mu.Pos(), ok, msg)
